@@ -353,11 +353,16 @@ func (bucket *Bucket) inTransaction(fn func(txn *sql.Tx) error) error {
 		if err != nil {
 			break
 		}
+		verifPoint("tx.begin", bucket.name)
 
 		err = fn(txn)
 
 		if err == nil {
+			verifPoint("tx.beforeCommit", bucket.name)
 			err = txn.Commit()
+			if err == nil {
+				verifPoint("tx.afterCommit", bucket.name)
+			}
 		}
 
 		if err != nil {
